@@ -6,6 +6,8 @@ import (
 
 	"pgregory.net/rapid"
 
+	lalr "github.com/acekingke/yaccgo/LALR"
+
 	"verifharness/ref"
 	"verifharness/spec"
 	"verifharness/yg"
@@ -35,6 +37,11 @@ func init() {
 				c.P.Rule = "in-process: dense table and packed arrays under a reference LR driver, every string up to a length bound (<= 3000 strings per grammar)"
 				c.Rapid("tables", c.Pick(600, 12000), func(t *rapid.T) {
 					gc := DrawGrammar(t, fams)
+					if rapid.IntRange(0, 3).Draw(t, "rename") == 0 {
+						// names must not matter (a user nonterminal may be called "start")
+						spec.WithNames(t, gc.Spec)
+						gc.Text = gc.Spec.Render(spec.RenderOpts{})
+					}
 					if msg := evalTables(c, gc, prop); msg != "" {
 						c.Fail(gc, msg)
 						t.Fatalf("%s", msg)
@@ -203,6 +210,13 @@ func evalTables(c *Ctx, gc GCase, prop string) string {
 					msg = fmt.Sprintf("%s rejects the derived sentence %s of an LALR(1) grammar (class %s)", lk.name, clip(inputNames(s, w), 300), rf.class)
 				}
 			}
+			// near misses of the sentence (one token replaced, dropped or doubled):
+			// most are non-sentences, and a wrong acceptance is most likely close to
+			// a sentence. With a large alphabet the exhaustive strings above are
+			// very short, so this is the only place where such inputs are met.
+			if prop == "C01" && msg == "" && len(w) <= 40 {
+				msg = nearMisses(c, s, g, l, lookups[0].name, lookups[0].f, ids, w, 600)
+			}
 		}
 	}
 	if msg != "" {
@@ -212,6 +226,55 @@ func evalTables(c *Ctx, gc GCase, prop string) string {
 		c.Sample(map[string]interface{}{"family": gc.Family, "grammar": gc.Text, "class": rf.class, "strings_up_to_length": k, "packed": l.NeedPacked})
 	}
 	return ""
+}
+
+// nearMisses drives the table over single-token edits of the sentence w (at
+// most max of them, spread evenly over the edit space) and checks the
+// derivation of every accepted one.
+func nearMisses(c *Ctx, s *spec.Spec, g *ref.CFG, l *lalr.LALR1, name string, look func(st, a int) (int, error), ids []int, w []int, max int) string {
+	nT := len(ids)
+	total := len(w)*nT + len(w) + len(w)
+	step := 1
+	if total > max {
+		step = total/max + 1
+	}
+	for e := int(Hash(fmt.Sprint(w)) % uint64(step)); e < total; e += step {
+		var v []int
+		switch {
+		case e < len(w)*nT: // replace
+			i, t := e/nT, e%nT
+			if w[i] == t {
+				continue
+			}
+			v = append([]int{}, w...)
+			v[i] = t
+		case e < len(w)*nT+len(w): // drop
+			i := e - len(w)*nT
+			v = append(append([]int{}, w[:i]...), w[i+1:]...)
+		default: // double
+			i := e - len(w)*nT - len(w)
+			v = append(append(append([]int{}, w[:i+1]...), w[i]), w[i+1:]...)
+		}
+		in := make([]int, len(v))
+		for i, x := range v {
+			in[i] = ids[x]
+		}
+		c.Eval(1)
+		r := yg.Drive(l, look, in, 200000)
+		if r.Bad == "" && r.Accepted {
+			if err := g.CheckDerivation(r.Reds, append([]int{}, v...)); err != nil {
+				return fmt.Sprintf("%s accepts %s (a one-token edit of a sentence) but the reductions %v are not a rightmost derivation in reverse: %v", name, clip(inputNames(s, v), 300), clipInts(r.Reds), err)
+			}
+		}
+	}
+	return ""
+}
+
+func clipInts(v []int) string {
+	if len(v) > 40 {
+		return fmt.Sprint(v[:40]) + "..."
+	}
+	return fmt.Sprint(v)
 }
 
 func firstWord(s string) string {
